@@ -6,10 +6,11 @@ var chainMeta = map[string]any{
 		"state.StateDB, trie, trie.Database":                              "real",
 		"aquahash engine":                                                 "real rules, fake seal (ModeFake)",
 		"block building (core.GenerateChain)":                             "real",
-		"disk (LevelDB)":                                                  "stub: simdisk",
-		"network / gossip, downloader, fetcher":                           "stub: deliveries are plan operations (direct mode)",
-		"oracle node O":                                                   "real code on a fault-free in-memory database, one more history",
-		"fork-choice / canonical-index / tx-lookup models":                "reference models over the simulator's block tree (header difficulties only)",
+		"miner (opt/miner worker, CPU agent, unconfirmed set), core.TxPool (C01 miner histories)": "real; proof-of-work discovery is the simulator's (Seal parks on a gate)",
+		"disk (LevelDB)":                                   "stub: simdisk",
+		"network / gossip, downloader, fetcher":            "stub: deliveries are plan operations (direct mode)",
+		"oracle node O":                                    "real code on a fault-free in-memory database, one more history",
+		"fork-choice / canonical-index / tx-lookup models": "reference models over the simulator's block tree (header difficulties only)",
 	},
 	"assumptions": []string{
 		"go1.26.8 testing/synctest fake clock and quiescence; harness and reference models",
